@@ -168,6 +168,11 @@ impl varlink::Interface for ScriptIface {
                     call.to_upgraded();
                     results.push("set".into());
                 }
+                "z" => {
+                    // harness-only step: a slow method implementation (C15: streaming reply in flight)
+                    std::thread::sleep(std::time::Duration::from_millis(40));
+                    results.push("set".into());
+                }
                 "x" => {
                     results.push("ret_err".into());
                     ret = Err(varlink::context!(varlink::ErrorKind::Generic));
